@@ -24,7 +24,7 @@ an explicit `null` disables it; for the other six `null` is rejected; when absen
 of the (already resolved) global settings. -/
 theorem segment_resolution (st : Settings) (s : SegmentS) (seg : Segment)
     (h : segmentRest st s = .ok seg) : resolve (ofSettings st) s.over = .ok (ofSegment seg) := by
-  unfold segmentRest at h
+  unfold segmentRest segmentTail at h
   repeat (first | contradiction | split at h | dsimp only at h)
   all_goals first
     | contradiction
